@@ -9,6 +9,14 @@ TB = ("Trusted base: go/types+go/ssa (x/tools v0.29.0) front end, the govc VC ge
       "assumed contracts of external libraries listed per run in the evidence file. ")
 
 CLAIMS = {
+ "C06": dict(
+   technique="contract-based deductive verification: WP/VC generation over go/ssa of the real existence validators, SMT (z3/cvc5)",
+   text=("Proof, for all Output values of any size, that ValidateParamsExist / ValidateServicesExist return nil exactly when every name in every "
+         "DependsOnParams / DependsOnServices list reachable from a parameter, a service (arguments, calls, fields via AllArgs) or a decorator is in the set of declared names "
+         "(names only, so todo entries count as declared). Both directions are separate obligations; AllArgs is proved sound and positionally complete."),
+   note=("Build-time half: the custody chain from YAML text to the DependsOn* lists (resolvers, token factories) is claimed under C02/C03 when built; message texts are opaque. "
+         "grouperror.Prefix/Join have assumed contracts (nil iff all nil). " + TB),
+   design="DESIGN.md section 4 C06"),
  "C09": dict(
    technique="contract-based deductive verification: WP/VC generation over go/ssa of the real merge.go, SMT (z3/cvc5)",
    text=("Proof, for all inputs and unbounded sizes, that every function of input/merge.go and slices.Copy meets a contract transcribed from the "
